@@ -14,6 +14,7 @@ pub(crate) struct MemfsFile {
     pub(crate) data: Vec<u8>,         // datastore for the memory file
     pub(crate) path: Option<PathBuf>, // optional path to write to
     pub(crate) fs: Option<Memfs>,     // optional sharable filesystem for writes
+    pub(crate) append_from: Option<usize>, // append handles only add what was written past this offset
 }
 
 impl MemfsFile {
@@ -32,7 +33,15 @@ impl MemfsFile {
                 let mut guard = fs.write_guard();
                 if guard.contains_entry(path) {
                     if let Some(f) = guard.get_file_mut(path) {
-                        f.data.clone_from(&self.data);
+                        match self.append_from {
+                            // An append handle adds what it was given since its last sync at the
+                            // end of the file and leaves what got there in the meantime alone
+                            Some(from) => {
+                                f.data.extend_from_slice(&self.data[from.min(self.data.len())..]);
+                                self.append_from = Some(self.data.len());
+                            },
+                            None => f.data.clone_from(&self.data),
+                        }
                     }
                 } else {
                     return Err(io::Error::new(
@@ -53,6 +62,7 @@ impl Clone for MemfsFile {
             data: self.data.clone(),
             path: self.path.clone(),
             fs: self.fs.as_ref().map(|x| x.clone()),
+            append_from: self.append_from,
         }
     }
 }
